@@ -627,6 +627,10 @@ func drawReads(c *simkit.Choices, n int) []int {
 	if c.N(6) == 0 {
 		// empty reads (0, nil) in between: "nothing happened", not end of input
 		reads = append(reads, 0)
+		if c.N(4) == 0 {
+			// a long run of them (a stalled source): 2 .. 150 in a row
+			reads[len(reads)-1] = -[]int{2, 99, 100, 101, 150}[c.N(5)]
+		}
 		if c.Bool() {
 			reads[0], reads[len(reads)-1] = reads[len(reads)-1], reads[0]
 		}
